@@ -30,8 +30,17 @@ def plan(tier, seed):
         [{"ambient": ["test/test_pdo.py", "test/test_local.py"]}]
 
 
-def build_map(node, fields):
+def build_map(node, fields, via="add_variable"):
     pmap = node.tpdo[1]
+    if via == "read":
+        # the mapping as a device / DCF describes it: mapping words index<<16 | sub<<8 | bit length, decoded by PdoMap.read()
+        od = node.object_dictionary
+        od[0x1800][1].value, od[0x1800][2].value = 0x181, 1
+        od[0x1A00][0].value = len(fields)
+        for i, (dt, ln) in enumerate(fields, start=1):
+            od[0x1A00][i].value = (gen.TYPE_INDEX_BASE + dt) << 16 | ln
+        pmap.read(from_od=True)
+        return pmap
     pmap.clear()
     for dt, ln in fields:
         full = R.width(dt)
@@ -82,6 +91,9 @@ def run(ctx, desc):
         return
     od = gen.typed_od()
     node = canopen.RemoteNode(1, od)
+    from canmon import simbus
+    net, _st = simbus.make_network(simbus.SimBus(mode="inline"), "net")
+    net.add_node(node)               # PdoMap.read() subscribes the map
     rng = ctx.rng("c05")
     layouts = []
     # forced (offset, type) coverage: this shard takes offsets congruent to its part
@@ -97,15 +109,22 @@ def run(ctx, desc):
                     layouts.append(gen.random_layout(rng, (off, dt, ln)))
     for _ in range(desc["layouts"]):
         layouts.append(gen.random_layout(rng))
-    for fields in layouts:
-        run_layout(ctx, rng, node, fields, desc["maxbits"])
+    for li, fields in enumerate(layouts):
+        run_layout(ctx, rng, node, fields, desc["maxbits"], via="read" if li % 3 == 2 else "add_variable")
 
 
-def run_layout(ctx, rng, node, fields, maxbits, only=None):
-    pmap = build_map(node, fields)
+def run_layout(ctx, rng, node, fields, maxbits, only=None, via="add_variable"):
+    pmap = build_map(node, fields, via)
     total = sum(ln for _, ln in fields)
     nbytes = (total + 7) // 8
-    case0 = {"fields": [(R.NAMES[dt], ln) for dt, ln in fields]}
+    case0 = {"fields": [(R.NAMES[dt], ln) for dt, ln in fields], "via": via}
+    # the node-level accessors reach the same variables (looked up afresh after every re-mapping)
+    names = [v.name for v in pmap.map]
+    for var in pmap.map:
+        if names.count(var.name) == 1:
+            ctx.count("node_level_lookups")
+            if node.tpdo[var.name] is not var or node.pdo[var.name] is not var:
+                ctx.violation("pdo-node-level-lookup-stale", f"node.tpdo[{var.name!r}] is not the variable of the current mapping", case0)
     if len(pmap.map) != len(fields) or len(pmap.data) != nbytes:
         ctx.violation("pdo-frame-length", f"map of {total} bits has {len(pmap.data)} data bytes / {len(pmap.map)} vars", case0)
         return
@@ -162,4 +181,6 @@ def replay(ctx, case):
     inv = {v: k for k, v in R.NAMES.items()}
     fields = [(inv[n], ln) for n, ln in case["fields"]]
     node = canopen.RemoteNode(1, gen.typed_od())
-    run_layout(ctx, ctx.rng("replay"), node, fields, 8, only=case.get("field"))
+    from canmon import simbus
+    simbus.make_network(simbus.SimBus(mode="inline"), "net")[0].add_node(node)
+    run_layout(ctx, ctx.rng("replay"), node, fields, 8, only=case.get("field"), via=case.get("via", "add_variable"))
